@@ -33,9 +33,10 @@ func (core *JApiCore) processContext(d *directive.Directive, root *[]*directive.
 						d.String(),
 					))
 				}
-				*root = append(*root, d)
-				core.currentContextDirective = d
-				return nil
+				// A method with its own path is not a method of this URL: it is placed by
+				// the contexts around the URL (the root context, or e.g. a MACRO).
+				core.currentContextDirective = core.currentContextDirective.Parent
+				continue
 			}
 
 			d.Parent = core.currentContextDirective
